@@ -9,8 +9,10 @@ import (
 	"testing"
 
 	turn "github.com/pion/turn/v5"
+	"github.com/pion/turn/v5/internal/allocation"
 	"github.com/pion/turn/v5/verif/rep"
 	"github.com/pion/turn/v5/verif/simnet"
+	"github.com/pion/turn/v5/verif/vtx"
 )
 
 // Part (v): histories over ONE generator instance. The other parts judge one
@@ -29,10 +31,10 @@ import (
 // the recorded SO_REUSEPORT finding and is not generated here); Close frees.
 
 type histCase struct {
-	Gen     string `json:"generator"`
-	Network string `json:"network"`
-	Address string `json:"address"`
-	Actions []int  `json:"actions"` // 0 any, 1 requested P1, 2 requested P2, 3+i close i-th live
+	Gen     string   `json:"generator"`
+	Network string   `json:"network"`
+	Address string   `json:"address"`
+	Actions []int    `json:"actions"` // 0 any, 1 requested P1, 2 requested P2, 3+i close i-th live (i<3), 6 Manager.GetRandomEvenPort
 	Trace   []string `json:"trace,omitempty"`
 }
 
@@ -81,6 +83,33 @@ func runHistory(c *histCase, lc localClasses) (sig, detail string, ok bool) {
 	}
 	for i, a := range c.Actions {
 		pre := open(nw, proto)
+		if a == 6 {
+			// the allocation manager's even-port search (EVEN-PORT requests) probes through the generator:
+			// it returns an even port that was bindable, and leaves nothing bound behind
+			if c.Network != "udp4" {
+				return "", "", false
+			}
+			m, err := allocation.NewManager(allocation.ManagerConfig{LeveledLogger: vtx.Quiet{}, AllocatePacketConn: g.AllocatePacketConn,
+				AllocateListener: g.AllocateListener, AllocateConn: g.AllocateConn})
+			if err != nil {
+				return "harness:newmanager", err.Error(), true
+			}
+			calls = 0
+			var port int
+			ps := guarded(func() { port, err = m.GetRandomEvenPort() })
+			c.Trace = append(c.Trace, fmt.Sprintf("even-port probe -> %d %v", port, err))
+			switch {
+			case ps != "":
+				return "panic:even-port-probe", ps, true
+			case !sameSet(open(nw, proto), pre):
+				return "history:even-port-probe-leaves-sockets-bound", fmt.Sprintf("step %d: open %v, before %v", i, open(nw, proto), pre), true
+			case err == nil && (port%2 != 0 || port == 0 || held(port)):
+				return "history:even-port-probe-result", fmt.Sprintf("step %d: port %d (held=%v)", i, port, held(port)), true
+			}
+			lc[fmt.Sprintf("history:%s|%s|even-port-probe|live-before=%d|draws=%d -> err=%v", c.Gen, proto, len(lives), calls, err != nil)]++
+
+			continue
+		}
 		if a >= 3 {
 			idx := a - 3
 			if idx >= len(lives) {
@@ -216,7 +245,7 @@ func TestC20Histories(t *testing.T) {
 							return
 						}
 					}
-					for a := 0; a < 6; a++ {
+					for a := 0; a < 7; a++ {
 						rec(append(prefix, a))
 					}
 				}
